@@ -1,6 +1,13 @@
 (* C11 - level A for arguments: the (repaired) argument splitter of Table._read applied to
    the printed argument list gives back the arguments: quoted values keep their blanks and
-   commas, whatever the separators and the optional quoting of the other values. *)
+   commas, whatever the separators and the optional quoting of the other values; a double
+   quote that is part of a value (written backslash, quote) comes back as that character,
+   inside a quoted value as well as at one or both ends of a bare word.
+   The proof follows the passes of _read: the first pass turns every written backslash-quote
+   into the place holder 2 (bsq_rest: the text is then the RAW print pr_rest0 of the values
+   with 2 for their quotes); the two quoted-string passes and the split see delimiting
+   quotes only; the delimiters are removed BEFORE the place holders are put back, so a
+   bare word whose first and last characters are quotes keeps them (unprotect_bare). *)
 From Coq Require Import Lia.
 From Eupsv Require Import Base.Base Base.BaseLemmas Model.Rx Model.Cond Model.Args Model.Legacy
   Model.Blocks Model.TableSpec Proofs.RxLib.
@@ -14,12 +21,98 @@ Definition noctl (s : str) : bool :=
 Definition nosep (s : str) : bool := forallb (fun c => negb (is_argsep c)) s.
 
 Lemma wf_value_facts a : wf_value a = true ->
-  nonempty a = true /\ nodq a = true /\ nobsl a = true /\ noctl a = true.
+  nonempty a = true /\ nobsl a = true /\ noctl a = true.
 Proof.
   unfold wf_value. rewrite andb_true_iff. intros [Hn Hb]. split; [exact Hn|].
-  unfold nodq, nobsl, noctl. repeat split; (eapply forallb_impl; [|exact Hb]); intros c Hc;
+  unfold nobsl, noctl. repeat split; (eapply forallb_impl; [|exact Hb]); intros c Hc;
     unfold bad_arg_char in Hc; rewrite negb_true_iff in Hc; rewrite !orb_false_iff in Hc;
     rewrite ?negb_true_iff, ?orb_false_iff; tauto.
+Qed.
+
+(* ---------------------------------------------------------------- raw printing *)
+
+(* the values written as they are, without escaping: what the text between the parentheses
+   looks like once the first pass of _read has replaced every backslash-quote *)
+Definition pr_arg0 (q : bool) (a : str) : str := if q then c_dq :: a ++ [c_dq] else a.
+
+Fixpoint pr_rest0 (l : list (str * bool)) (args : list str) : str :=
+  match l, args with
+  | (sep, q) :: l', a :: args' => sep ++ pr_arg0 q a ++ pr_rest0 l' args'
+  | _, _ => []
+  end.
+
+(* a value with the place holder 2 for its double quotes *)
+Definition dqp (a : str) : str := map_char c_dq c_02 a.
+
+Lemma esc_dq_id a : nodq a = true -> esc_dq a = a.
+Proof.
+  unfold nodq, esc_dq. induction a as [|c a IH]; [reflexivity|]. cbn [forallb flat_map].
+  rewrite andb_true_iff, negb_true_iff. intros [Hc Ha]. rewrite Hc, (IH Ha). reflexivity.
+Qed.
+
+Lemma dqp_id a : nodq a = true -> dqp a = a.
+Proof.
+  unfold nodq, dqp, map_char. induction a as [|c a IH]; [reflexivity|]. cbn [forallb map].
+  rewrite andb_true_iff, negb_true_iff. intros [Hc Ha]. rewrite Hc, (IH Ha). reflexivity.
+Qed.
+
+Lemma dqp_nodq a : nodq (dqp a) = true.
+Proof.
+  unfold nodq, dqp, map_char. induction a as [|c a IH]; [reflexivity|]. cbn [map forallb].
+  rewrite IH, andb_true_r. destruct (ascii_eqb c c_dq) eqn:E; [reflexivity|now rewrite E].
+Qed.
+
+Lemma dqp_nonempty a : nonempty (dqp a) = nonempty a.
+Proof. destruct a; reflexivity. Qed.
+
+(* ---------------------------------------------------------------- the first pass: backslash-quote *)
+
+Definition bsq_m : str -> option (str * nat) := lit_match [c_bsl; c_dq] [c_02].
+
+Lemma bsq_copy s rest : nobsl s = true -> scan bsq_m 0 (s ++ rest) = s ++ scan bsq_m 0 rest.
+Proof.
+  intros H. apply scan_copy. unfold nobsl in H. rewrite forallb_Forall in H.
+  eapply Forall_impl; [|exact H]. intros c Hc r. apply negb_true_iff in Hc.
+  unfold bsq_m, lit_match. cbn [cs_prefix]. rewrite ascii_eqb_sym, Hc. reflexivity.
+Qed.
+
+Lemma bsq_hit rest : bsq_m (c_bsl :: [c_dq] ++ rest) = Some ([c_02], length [c_dq]).
+Proof. unfold bsq_m, lit_match. cbn [cs_prefix app]. rewrite !ascii_eqb_refl. reflexivity. Qed.
+
+(* an escaped value becomes the value with 2 for its quotes *)
+Lemma bsq_esc a rest : nobsl a = true ->
+  scan bsq_m 0 (esc_dq a ++ rest) = dqp a ++ scan bsq_m 0 rest.
+Proof.
+  unfold nobsl, esc_dq, dqp, map_char. induction a as [|c a IH]; [reflexivity|].
+  cbn [forallb flat_map map]. rewrite andb_true_iff, negb_true_iff. intros [Hc Ha].
+  destruct (ascii_eqb c c_dq) eqn:E.
+  - rewrite <- app_assoc. change ([c_bsl; c_dq] ++ ?x) with (c_bsl :: [c_dq] ++ x).
+    rewrite (scan_match bsq_m c_bsl [c_dq] _ [c_02] (bsq_hit _)). cbn [app]. f_equal. apply IH, Ha.
+  - cbn [app scan]. replace (bsq_m (c :: _)) with (@None (str * nat)).
+    + f_equal. apply IH, Ha.
+    + unfold bsq_m, lit_match. cbn [cs_prefix]. now rewrite ascii_eqb_sym, Hc.
+Qed.
+
+Fixpoint bsq_ok (l : list (str * bool)) (args : list str) : bool :=
+  match l, args with
+  | [], [] => true
+  | (sep, q) :: l', x :: args' => nobsl sep && nobsl x && bsq_ok l' args'
+  | _, _ => false
+  end.
+
+Lemma bsq_rest l args rest : bsq_ok l args = true ->
+  scan bsq_m 0 (pr_rest l args ++ rest) = pr_rest0 l (map dqp args) ++ scan bsq_m 0 rest.
+Proof.
+  revert args. induction l as [|[sep q] l IH]; intros [|x args] H; try discriminate H; [reflexivity|].
+  cbn [bsq_ok] in H. rewrite !andb_true_iff in H. destruct H as [[Hs Hx] Hr].
+  cbn [pr_rest pr_rest0 map]. rewrite <- !app_assoc. rewrite bsq_copy by exact Hs. f_equal.
+  destruct q; cbn [pr_arg pr_arg0].
+  - cbn [app]. rewrite <- !app_assoc. cbn [app].
+    change (c_dq :: esc_dq x ++ c_dq :: pr_rest l args ++ rest)
+      with ([c_dq] ++ esc_dq x ++ [c_dq] ++ pr_rest l args ++ rest).
+    rewrite (bsq_copy [c_dq]) by reflexivity. rewrite bsq_esc by exact Hx.
+    rewrite (bsq_copy [c_dq]) by reflexivity. rewrite IH by exact Hr. reflexivity.
+  - rewrite bsq_esc by exact Hx. now rewrite IH by exact Hr.
 Qed.
 
 Lemma argsep_facts c : is_argsep c = true ->
@@ -83,13 +176,13 @@ Fixpoint pass_ok (l : list (str * bool)) (args : list str) : bool :=
   end.
 
 Lemma pass_rest a b l args rest : pass_ok l args = true ->
-  scan (quoted_match a b) 0 (pr_rest l args ++ rest)
-  = pr_rest l (tr (map_char a b) l args) ++ scan (quoted_match a b) 0 rest.
+  scan (quoted_match a b) 0 (pr_rest0 l args ++ rest)
+  = pr_rest0 l (tr (map_char a b) l args) ++ scan (quoted_match a b) 0 rest.
 Proof.
   revert args. induction l as [|[sep q] l IH]; intros [|x args] H; try discriminate H; [reflexivity|].
   cbn [pass_ok] in H. rewrite !andb_true_iff in H. destruct H as [[[Hs Hx] Hn] Hr].
-  cbn [pr_rest tr]. rewrite <- !app_assoc. rewrite nodq_copy by exact Hs. f_equal.
-  destruct q; cbn [pr_arg].
+  cbn [pr_rest0 tr]. rewrite <- !app_assoc. rewrite nodq_copy by exact Hs. f_equal.
+  destruct q; cbn [pr_arg0].
   - cbn [app]. rewrite <- app_assoc. cbn [app]. rewrite qm_quoted by auto.
     cbn [app]. rewrite IH by exact Hr. reflexivity.
   - rewrite nodq_copy by exact Hx. now rewrite IH by exact Hr.
@@ -154,7 +247,7 @@ Qed.
 (* the words of the protected text *)
 Fixpoint words (l : list (str * bool)) (args : list str) : list str :=
   match l, args with
-  | (_, q) :: l', x :: args' => pr_arg q x :: words l' args'
+  | (_, q) :: l', x :: args' => pr_arg0 q x :: words l' args'
   | _, _ => []
   end.
 
@@ -166,20 +259,20 @@ Fixpoint split_ok (l : list (str * bool)) (args : list str) : bool :=
   | _, _ => false
   end.
 
-Lemma nosep_pr_arg q x : nosep x = true -> nosep (pr_arg q x) = true.
+Lemma nosep_pr_arg q x : nosep x = true -> nosep (pr_arg0 q x) = true.
 Proof.
-  intros H. destruct q; [|exact H]. unfold nosep in *. cbn [pr_arg forallb].
+  intros H. destruct q; [|exact H]. unfold nosep in *. cbn [pr_arg0 forallb].
   rewrite forallb_app, H. reflexivity.
 Qed.
 
 Lemma split_rest acc l args trail :
   nonempty acc = true -> split_ok l args = true -> forallb is_argsep trail = true ->
-  split_set_go is_argsep acc (pr_rest l args ++ trail) = acc :: words l args.
+  split_set_go is_argsep acc (pr_rest0 l args ++ trail) = acc :: words l args.
 Proof.
   revert acc args. induction l as [|[sep q] l IH]; intros acc [|x args] Ha H Ht; try discriminate H.
-  - cbn [pr_rest app words]. rewrite split_go_seps by exact Ht. destruct acc; [discriminate|reflexivity].
+  - cbn [pr_rest0 app words]. rewrite split_go_seps by exact Ht. destruct acc; [discriminate|reflexivity].
   - cbn [split_ok] in H. rewrite !andb_true_iff in H. destruct H as [[[[Hs Hsn] Hx] Hxn] Hr].
-    cbn [pr_rest words]. rewrite <- !app_assoc.
+    cbn [pr_rest0 words]. rewrite <- !app_assoc.
     rewrite split_go_sep by auto. destruct acc as [|c acc]; [discriminate|]. cbn [emit app]. f_equal.
     rewrite split_go_word by (apply nosep_pr_arg, Hx). cbn [app].
     apply IH; auto. destruct q, x; try discriminate; reflexivity.
@@ -201,63 +294,86 @@ Proof.
   destruct c as [[] [] [] [] [] [] [] []]; vm_compute; intros H; try discriminate H; reflexivity.
 Qed.
 
-Lemma unprotect_quoted x : noctl x = true -> unprotect (c_dq :: prot x ++ [c_dq]) = x.
-Proof.
-  intros H. unfold unprotect. rewrite strip_dq_quoted. unfold prot, map_char. rewrite !map_map.
-  rewrite <- (map_id x) at 2. apply map_ext_in. intros c Hc.
-  unfold noctl in H. rewrite forallb_forall in H. exact (unprot_char c (H c Hc)).
-Qed.
-
-Lemma unprot_char_bare c :
+(* a quoted value: the delimiters go, then the blanks, the quotes and the commas come back *)
+Lemma unprot_char_q c :
   negb (ascii_eqb c c_01 || ascii_eqb c c_02 || ascii_eqb c c_03) = true ->
+  let h := fun c => if ascii_eqb c c_dq then c_02 else c in
+  let f1 := fun c => if ascii_eqb c c_sp then c_01 else c in
+  let f2 := fun c => if ascii_eqb c c_comma then c_03 else c in
   let g1 := fun c => if ascii_eqb c c_01 then c_sp else c in
   let g2 := fun c => if ascii_eqb c c_02 then c_dq else c in
   let g3 := fun c => if ascii_eqb c c_03 then c_comma else c in
-  g3 (g2 (g1 c)) = c.
+  g3 (g2 (g1 (f2 (f1 (h c))))) = c.
 Proof.
   destruct c as [[] [] [] [] [] [] [] []]; vm_compute; intros H; try discriminate H; reflexivity.
 Qed.
 
-Lemma unprotect_bare x : noctl x = true -> nodq x = true -> unprotect x = x.
+Lemma unprotect_quoted x : noctl x = true -> unprotect (c_dq :: prot (dqp x) ++ [c_dq]) = x.
 Proof.
-  intros H Hq. unfold unprotect. rewrite strip_dq_id.
-  - unfold map_char. rewrite !map_map. rewrite <- (map_id x) at 2. apply map_ext_in. intros c Hc.
+  intros H. unfold unprotect. rewrite strip_dq_quoted. unfold prot, dqp, map_char. rewrite !map_map.
+  rewrite <- (map_id x) at 2. apply map_ext_in. intros c Hc.
+  unfold noctl in H. rewrite forallb_forall in H. exact (unprot_char_q c (H c Hc)).
+Qed.
+
+Lemma unprot_char_bare c :
+  negb (ascii_eqb c c_01 || ascii_eqb c c_02 || ascii_eqb c c_03) = true ->
+  let h := fun c => if ascii_eqb c c_dq then c_02 else c in
+  let g1 := fun c => if ascii_eqb c c_01 then c_sp else c in
+  let g2 := fun c => if ascii_eqb c c_02 then c_dq else c in
+  let g3 := fun c => if ascii_eqb c c_03 then c_comma else c in
+  g3 (g2 (g1 (h c))) = c.
+Proof.
+  destruct c as [[] [] [] [] [] [] [] []]; vm_compute; intros H; try discriminate H; reflexivity.
+Qed.
+
+(* a bare word: when the delimiting quotes are looked for, the quotes of the value are still
+   the place holder 2, so nothing is removed, whatever the first and last characters are *)
+Lemma unprotect_bare x : noctl x = true -> unprotect (dqp x) = x.
+Proof.
+  intros H. unfold unprotect. rewrite strip_dq_id.
+  - unfold dqp, map_char. rewrite !map_map. rewrite <- (map_id x) at 2. apply map_ext_in. intros c Hc.
     unfold noctl in H. rewrite forallb_forall in H. exact (unprot_char_bare c (H c Hc)).
-  - destruct x as [|c x]; [reflexivity|]. cbn [nodq forallb] in Hq. apply andb_true_iff in Hq.
-    destruct Hq as [Hq _]. now apply negb_true_iff.
+  - pose proof (dqp_nodq x) as Hq. destruct (dqp x) as [|c y]; [reflexivity|].
+    cbn [nodq forallb] in Hq. apply andb_true_iff in Hq. destruct Hq as [Hq _]. now apply negb_true_iff.
+Qed.
+
+Lemma dqp_nosep x : nosep x = true -> nosep (dqp x) = true.
+Proof.
+  unfold nosep, dqp, map_char. induction x as [|c x IH]; [reflexivity|]. cbn [forallb map].
+  rewrite !andb_true_iff. intros [Hc Hx]. split; [|apply IH, Hx].
+  destruct (ascii_eqb c c_dq); [reflexivity|exact Hc].
 Qed.
 
 (* ---------------------------------------------------------------- the round trip *)
 
 Lemma wf_rest_facts l args : wf_rest l args = true ->
-  pass_ok l args = true /\
-  split_ok l (tr prot l args) = true /\
-  map unprotect (words l (tr prot l args)) = args /\
-  nobsl (pr_rest l args) = true.
+  bsq_ok l args = true /\
+  pass_ok l (map dqp args) = true /\
+  split_ok l (tr prot l (map dqp args)) = true /\
+  map unprotect (words l (tr prot l (map dqp args))) = args.
 Proof.
   revert args. induction l as [|[sep q] l IH]; intros [|x args] H; try discriminate H.
   - repeat split.
   - cbn [wf_rest] in H. rewrite !andb_true_iff in H. destruct H as [[[Hs Hv] Hq] Hr].
-    destruct (IH _ Hr) as (I1 & I2 & I3 & I4).
-    destruct (wf_value_facts x Hv) as (Vn & Vq & Vb & Vc).
+    destruct (IH _ Hr) as (I0 & I1 & I2 & I3).
+    destruct (wf_value_facts x Hv) as (Vn & Vb & Vc).
     unfold wf_sep in Hs. rewrite !andb_true_iff in Hs. destruct Hs as [[Sn Ss] _].
     destruct (sep_facts sep Ss) as [Sq Sb].
     repeat split.
-    + cbn [pass_ok]. now rewrite Sq, Vq, Vn, I1.
-    + cbn [tr split_ok]. rewrite Ss, Sn, I2. cbn [andb]. destruct q.
-      * assert (E : nosep (prot x) = true).
+    + cbn [bsq_ok]. now rewrite Sb, Vb, I0.
+    + cbn [map pass_ok]. now rewrite Sq, dqp_nodq, dqp_nonempty, Vn, I1.
+    + cbn [map tr split_ok]. rewrite Ss, Sn, I2. cbn [andb]. destruct q.
+      * assert (E : nosep (prot (dqp x)) = true).
         { unfold nosep, prot, map_char. rewrite !forallb_forall. intros c Hc.
           rewrite map_map in Hc. apply in_map_iff in Hc. destruct Hc as (c0 & <- & _).
           unfold is_argsep.
           destruct (ascii_eqb c0 c_sp) eqn:E1; [reflexivity|].
           destruct (ascii_eqb c0 c_comma) eqn:E2; [reflexivity|]. now rewrite E1, E2. }
-        rewrite E. unfold prot. rewrite !map_char_nonempty, Vn. reflexivity.
-      * rewrite (bare_nosep x Hq), Vn. reflexivity.
-    + cbn [tr words map]. rewrite I3. f_equal. destruct q; cbn [pr_arg].
+        rewrite E. unfold prot. rewrite !map_char_nonempty, dqp_nonempty, Vn. reflexivity.
+      * rewrite (dqp_nosep x (bare_nosep x Hq)), dqp_nonempty, Vn. reflexivity.
+    + cbn [map tr words]. rewrite I3. f_equal. destruct q; cbn [pr_arg0].
       * apply unprotect_quoted, Vc.
-      * apply unprotect_bare; auto.
-    + cbn [pr_rest]. unfold nobsl in *. rewrite !forallb_app, Sb, I4.
-      destruct q; cbn [pr_arg forallb]; rewrite ?forallb_app, Vb; reflexivity.
+      * apply unprotect_bare, Vc.
 Qed.
 
 Lemma protect_bsq_id s : nobsl s = true -> protect_bsq s = s.
@@ -275,12 +391,31 @@ Proof. induction n; [reflexivity|]. cbn. exact IHn. Qed.
 
 Lemma pass_full a b pre a0 l args post :
   nodq pre = true -> nodq a0 = true -> nodq post = true -> pass_ok l args = true ->
-  scan (quoted_match a b) 0 (pre ++ a0 ++ pr_rest l args ++ post)
-  = pre ++ a0 ++ pr_rest l (tr (map_char a b) l args) ++ post.
+  scan (quoted_match a b) 0 (pre ++ a0 ++ pr_rest0 l args ++ post)
+  = pre ++ a0 ++ pr_rest0 l (tr (map_char a b) l args) ++ post.
 Proof.
   intros H1 H2 H3 H4. rewrite nodq_copy by exact H1. rewrite nodq_copy by exact H2.
   rewrite pass_rest by exact H4. rewrite <- (app_nil_r post) at 1. rewrite nodq_copy by exact H3.
   cbn [scan]. now rewrite app_nil_r.
+Qed.
+
+(* the first pass on the whole printed text *)
+Lemma bsq_full n a0 l args m : nobsl a0 = true -> bsq_ok l args = true ->
+  protect_bsq (sp n ++ esc_dq a0 ++ pr_rest l args ++ sp m)
+  = sp n ++ dqp a0 ++ pr_rest0 l (map dqp args) ++ sp m.
+Proof.
+  intros Ha Hr. unfold protect_bsq, replace_all, resub. fold bsq_m.
+  rewrite bsq_copy by apply sp_nobsl. rewrite bsq_esc by exact Ha. rewrite bsq_rest by exact Hr.
+  rewrite <- (app_nil_r (sp m)) at 1. rewrite bsq_copy by apply sp_nobsl. cbn [scan]. now rewrite app_nil_r.
+Qed.
+
+(* the printed text does not begin with a (real) double quote *)
+Lemma esc_dq_head a rest :
+  nonempty a = true ->
+  match esc_dq a ++ rest with c :: _ => ascii_eqb c c_dq | [] => false end = false.
+Proof.
+  destruct a as [|c a]; [discriminate|]. intros _. cbn [esc_dq flat_map].
+  destruct (ascii_eqb c c_dq) eqn:E; cbn [app]; [reflexivity|exact E].
 Qed.
 
 Theorem split_print_args g args : wf_args g args = true -> split_args true (print_args g args) = args.
@@ -292,26 +427,66 @@ Proof.
     unfold resub. rewrite <- (app_nil_r (sp (gl_lead g))). rewrite !nodq_copy by apply sp_nodq.
     cbn [scan]. rewrite app_nil_r. unfold split_set. rewrite split_go_seps by apply sp_argsep. reflexivity.
   - rewrite !andb_true_iff. intros [[Hv Hb] Hr].
-    destruct (wf_value_facts a0 Hv) as (Vn & Vq & Vb & Vc).
-    destruct (wf_rest_facts _ _ Hr) as (P1 & P2 & P3 & P4).
+    destruct (wf_value_facts a0 Hv) as (Vn & Vb & Vc).
+    destruct (wf_rest_facts _ _ Hr) as (P0 & P1 & P2 & P3).
     unfold split_args, protect.
     rewrite strip_dq_id.
-    2:{ destruct (gl_lead g); [|reflexivity]. cbn [sp repeat app]. destruct a0 as [|c a0]; [discriminate|].
-        cbn [app]. cbn [nodq forallb] in Vq. apply andb_true_iff in Vq. destruct Vq as [Vq _].
-        now apply negb_true_iff. }
-    rewrite protect_bsq_id.
-    2:{ unfold nobsl in *. rewrite !forallb_app, Vb, P4. fold (nobsl (sp (gl_lead g))). fold (nobsl (sp (gl_trail g))).
-        now rewrite !sp_nobsl. }
+    2:{ destruct (gl_lead g); [|reflexivity]. cbn [sp repeat app]. apply esc_dq_head, Vn. }
+    rewrite bsq_full by assumption.
     unfold resub.
-    rewrite pass_full by (auto using sp_nodq).
-    rewrite pass_full by (auto using sp_nodq, pass_ok_tr).
+    rewrite pass_full by (auto using sp_nodq, dqp_nodq).
+    rewrite pass_full by (auto using sp_nodq, dqp_nodq, pass_ok_tr).
     rewrite tr_tr.
     change (fun x => map_char c_comma c_03 (map_char c_sp c_01 x)) with prot.
     unfold split_set.
+    assert (Hw : nosep (dqp a0) = true) by (apply dqp_nosep, bare_nosep, Hb).
+    assert (Hne : nonempty (dqp a0) = true) by (now rewrite dqp_nonempty).
     destruct (gl_lead g) as [|n].
-    + cbn [sp repeat app]. rewrite split_go_word by (apply bare_nosep, Hb). cbn [app].
-      rewrite split_rest; auto using sp_argsep. cbn [map]. rewrite P3. f_equal. apply unprotect_bare; auto.
+    + cbn [sp repeat app]. rewrite split_go_word by exact Hw. cbn [app].
+      rewrite split_rest; auto using sp_argsep. cbn [map]. rewrite P3. f_equal. apply unprotect_bare, Vc.
     + rewrite split_go_sep by (auto using sp_argsep). cbn [emit app].
-      rewrite split_go_word by (apply bare_nosep, Hb). cbn [app].
-      rewrite split_rest; auto using sp_argsep. cbn [map]. rewrite P3. f_equal. apply unprotect_bare; auto.
+      rewrite split_go_word by exact Hw. cbn [app].
+      rewrite split_rest; auto using sp_argsep. cbn [map]. rewrite P3. f_equal. apply unprotect_bare, Vc.
+Qed.
+
+(* ---------------------------------------------------------------- what the escaping adds *)
+
+(* texts of values without double quote are what they were before quotes were admitted *)
+Lemma pr_arg_plain q a : nodq a = true -> pr_arg q a = pr_arg0 q a.
+Proof. intros H. unfold pr_arg, pr_arg0. now rewrite (esc_dq_id a H). Qed.
+
+(* a bare word between two quotes: written with both quotes escaped, read with both *)
+Lemma split_quoted_word name sep w :
+  wf_value name = true -> bare_ok name = true -> wf_sep sep = true ->
+  wf_value w = true -> bare_ok w = true ->
+  let g := mkArglay 0 [(sep, false)] 0 in
+  let a := c_dq :: w ++ [c_dq] in
+  print_args g [name; a] = esc_dq name ++ sep ++ [c_bsl; c_dq] ++ esc_dq w ++ [c_bsl; c_dq] /\
+  split_args true (print_args g [name; a]) = [name; a].
+Proof.
+  intros Hn Hnb Hs Hw Hwb g a.
+  assert (Ea : esc_dq a = [c_bsl; c_dq] ++ esc_dq w ++ [c_bsl; c_dq]).
+  { subst a. unfold esc_dq. cbn [flat_map]. rewrite ascii_eqb_refl, flat_map_app. cbn [flat_map].
+    rewrite ascii_eqb_refl, app_nil_r. reflexivity. }
+  split.
+  - subst g. unfold print_args. cbn [gl_lead gl_rest gl_trail sp repeat pr_rest pr_arg app].
+    rewrite Ea, !app_nil_r. reflexivity.
+  - apply split_print_args. subst g. cbn [wf_args gl_rest wf_rest]. rewrite Hn, Hnb, Hs. cbn [andb].
+    rewrite andb_true_r. apply andb_true_iff. split.
+    + unfold wf_value in *. apply andb_true_iff in Hw. destruct Hw as [_ Hw].
+      subst a. cbn [nonempty forallb]. rewrite forallb_app, Hw. reflexivity.
+    + unfold bare_ok in *. subst a. cbn [forallb]. rewrite forallb_app, Hwb. reflexivity.
+Qed.
+
+(* ---------------------------------------------------------------- texts *)
+
+(* a text the recogniser puts inside the grammar is the print of a well-formed argument
+   list, and the splitter gives exactly those arguments *)
+Lemma args_class_sound t args : args_class t = Some args ->
+  split_args true t = args /\ exists g, wf_args g args = true /\ print_args g args = t.
+Proof.
+  unfold args_class. destruct (args_parse t) as [[g a]|]; [|discriminate].
+  destruct (wf_args g a) eqn:W; [|discriminate]. cbn [andb].
+  destruct (str_eqb (print_args g a) t) eqn:E; [|discriminate]. intros H. injection H as <-.
+  apply str_eqb_eq in E. split; [|exists g; auto]. rewrite <- E. now apply split_print_args.
 Qed.
